@@ -166,9 +166,6 @@ def run(ctx):
             raise vlib.Broken("no SUMMARY in TLC output for %s:\n%s" % (name, r.out[-2000:]))
         for k, v in s.items():
             tot[k] = tot.get(k, 0) + v
-        for key, (tag, fid, text) in DEVIATIONS.items():
-            if s.get(key, 0):
-                pass
 
     proposed = {}
     for key, (tag, fid, text) in DEVIATIONS.items():
